@@ -10,6 +10,7 @@ import (
 	"encoding/json"
 	"fmt"
 	"os"
+	"runtime"
 	"strconv"
 	"strings"
 	"sync"
@@ -52,9 +53,38 @@ func init() {
 		}
 		c := newCtx(args[1], args[2], seed)
 		c.child = true
+		startDeadlockWatch()
 		fn(c, sh, n)
 		c.dumpState()
 	}
+}
+
+const exitChildDeadlock = 97
+
+// startDeadlockWatch: a logical hang verdict for workload children. When the process has burnt (next to) no CPU for 10 s
+// and every goroutine other than the watcher is parked on a channel, select or lock, nothing can ever wake it: the child
+// prints all stacks and exits with exitChildDeadlock. Goroutines that sleep or wait for I/O or a child process are not
+// "parked", so waiting for something external never triggers it.
+func startDeadlockWatch() {
+	go func() {
+		idle, last := 0, c14CPU()
+		for {
+			time.Sleep(500 * time.Millisecond)
+			now := c14CPU()
+			if now-last < 2*time.Millisecond {
+				idle++
+			} else {
+				idle = 0
+			}
+			last = now
+			if idle >= 20 && c14AllBlocked() {
+				buf := make([]byte, 1<<20)
+				buf = buf[:runtime.Stack(buf, true)]
+				fmt.Fprintf(realStdout, "\nDEADLOCK-IN-CHILD: no CPU consumed for 10 s and every goroutine is blocked on a channel or lock\n%s\n", buf)
+				os.Exit(exitChildDeadlock)
+			}
+		}
+	}()
 }
 
 // in child mode Violate only collects
@@ -134,6 +164,17 @@ func (c *Ctx) mergeShard(name string, s, n int, res childResult) {
 		tail := res.Out
 		if len(tail) > 6000 {
 			tail = tail[len(tail)-6000:]
+		}
+		if res.Exit == exitChildDeadlock && strings.Contains(res.Out, "DEADLOCK-IN-CHILD") {
+			last := ""
+			for _, l := range strings.Split(res.Out, "\n") {
+				if strings.HasPrefix(l, "SHAPE ") || strings.HasPrefix(l, "CASE ") {
+					last = l
+				}
+			}
+			c.Violate("", fmt.Sprintf("child-deadlock shard=%s %d/%d: the workload stopped for good - no CPU for 10 s with every goroutine blocked on a channel or lock - during [%s]", name, s, n, last),
+				map[string]any{"shard": name, "index": s, "of": n, "last_case": last, "log_tail": tail})
+			return
 		}
 		if res.TimedOut {
 			c.Inconclusive(fmt.Sprintf("shard %s %d/%d: watchdog expired", name, s, n))
